@@ -86,7 +86,7 @@ CLAIMED = {
    note='a killed process performs no further effects; writes to one file take effect in order; temp files outside the output directory are not observable',
    ref='6/C19'),
  'C15': dict(
-   technique='Lean 4 proof (lockstep invariants of delete/select/add/rename) + step correspondence + lockstep oracle + find_replace / add_computed_field model (exact arithmetic, declared-type rule) in the step correspondence + translator tie (Tie_delete_process / Tie_select_process / Tie_rename_process: the row functions of the three field processors, re-translated on every run, = Row.restrict / renameRow for every list of rows) + pyeval correspondence',
+   technique='Lean 4 proof (lockstep invariants of delete/select/add/rename) + step correspondence + lockstep oracle + find_replace / add_computed_field model (exact arithmetic, declared-type rule) in the step correspondence + translator tie (Tie_delete_process / Tie_select_process / Tie_rename_process: the row functions of the three field processors, re-translated on every run, = Row.restrict / renameRow for every list of rows) + pyeval correspondence; Tie_delete_schema: the schema loop of delete_fields keeps exactly the fields no pattern matches)',
    text='Lockstep (row keys = declared fields), value preservation and order rules proved for every table and every regex oracle; correspondence ties the model to the code; the lockstep property is checked directly on real outputs incl. add_computed_field and find_replace.',
    note='regex via oracle table; rename onto an existing untouched field is outside the proved theorem (guard of the _partial statement)',
    ref='6/C15'),
